@@ -7,3 +7,6 @@
 (declare-fun jsonDecoder (Int) Int)
 (declare-fun jsonValid (Int) Bool)
 (define-fun jsonTextValid ((s String)) Bool (jsonValid (jsonDecoder (bytesBuffer (stringToBytes s)))))
+; after one value has been decoded, Token() returns io.EOF exactly when only blanks follow: the text is ONE document
+(declare-fun jsonAtEnd (Int) Bool)
+(define-fun jsonOneDocument ((s String)) Bool (and (jsonTextValid s) (jsonAtEnd (jsonDecoder (bytesBuffer (stringToBytes s))))))
